@@ -104,11 +104,7 @@ impl ProxySettings {
         }
 
         if let Some(host) = url.host_str() {
-            if !self
-                .no_proxy_hosts
-                .iter()
-                .any(|x| host.ends_with(x.to_lowercase().as_str()))
-            {
+            if !self.no_proxy_hosts.iter().any(|x| no_proxy_match(host, x)) {
                 return match url.scheme() {
                     "http" => self.http_proxy.as_ref(),
                     "https" => self.https_proxy.as_ref(),
@@ -117,6 +113,20 @@ impl ProxySettings {
             }
         }
         None
+    }
+}
+
+/// A no-proxy entry applies to a host that equals it or is a subdomain of it. A host that merely
+/// ends with the same letters (`notreddit.com` vs `reddit.com`) is not covered, and an empty entry
+/// (`NO_PROXY=""`, `a,,b`) covers nothing.
+fn no_proxy_match(host: &str, entry: &str) -> bool {
+    let entry = entry.to_lowercase();
+    if entry.is_empty() {
+        return false;
+    }
+    match host.strip_suffix(entry.as_str()) {
+        Some(rest) => rest.is_empty() || rest.ends_with('.'),
+        None => false,
     }
 }
 
